@@ -28,6 +28,8 @@ var callerSites = map[string]bool{
 	"transport.Client.Close:elected": true, "transport.Client.Close:socket-closed": true,
 	"transport.Server.Close:elected": true, "transport.Server.Close:socket-closed": true, "transport.Server.Close:workers-done": true,
 	"transport.Server.Serve:started": true, "transport.Handle.Close:enter": true,
+	// the transport's receive loops hold no lock right after a datagram was read
+	"transport.Server.readPacket:read": true, "transport.Client.listen:read": true,
 }
 
 // P is one installed perturber.
